@@ -230,14 +230,22 @@ func (m *ledgerMon) check(h uint32, b *BlockSpec, prevDump, dump []string, prevW
 		if h == a.V204Burn && prev.Bal[m.mintHex] != nil && prev.Bal[m.mintHex][int(ms.Ticker)] != nil {
 			exp.Neg(prev.Bal[m.mintHex][int(ms.Ticker)])
 		}
-		// ordinary history may also move the mint address' funds; only the one-time heights are pinned
+		// ordinary history may also move the mint address' funds (nobody holds its key, so only
+		// transfers into it): they are added to the expectation; only the one-time heights are pinned
+		if in := L.TransfersInto(int64(h), m.mintHex)[int(ms.Ticker)]; in != nil {
+			exp.Add(exp, in)
+		}
 		if (h == a.V204 || h == a.V204Burn) && d.Cmp(exp) != 0 {
 			m.violate("issuance:mint", fmt.Sprintf("mint address %s changed by %v, expected %v", ms.Ticker.String(), d, exp), h)
 			break
 		}
 	}
 	if h == a.DevRewards {
+		in := L.TransfersInto(int64(h), m.oldBurnHex) // received after the zeroing, in this very block
 		for t, v := range L.Bal[m.oldBurnHex] {
+			if in[t] != nil {
+				v = new(big.Int).Sub(v, in[t])
+			}
 			if v.Sign() != 0 {
 				m.violate("issuance:old-burn-not-zeroed", fmt.Sprintf("old burn address still holds %v of asset %s after its zeroing height", v, fat2.PTicker(t).String()), h)
 				break
@@ -256,6 +264,9 @@ func (m *ledgerMon) check(h uint32, b *BlockSpec, prevDump, dump []string, prevW
 	stakeHash := fmt.Sprintf("%064d", h)
 	var paid []uint64
 	for _, t := range L.T[stakeHash] {
+		if h == a.DevRewards && t.from == m.oldBurnHex {
+			continue // the burn-address zeroing records its rows under the same mock txid
+		}
 		if t.action == 3 && L.batchHeight(stakeHash) == int64(h) {
 			paid = append(paid, uint64(t.toAmount))
 		}
@@ -443,6 +454,52 @@ func scenBank(rep *Report, tier string, seed int64) {
 
 func init() { scenarios["bank"] = scenBank }
 
+// The `aligned` scenario (C15, C14): short chains in which an activation height coincides with
+// the 144-block cadence, so that the one-time adjustment, the snapshot, the staking payout and
+// the developer payout all fall into one block (the mainnet heights are not aligned; the
+// property quantifies over every alignment).
+func scenAligned(rep *Report, tier string, seed int64) {
+	// the chain starts early enough for a first snapshot at 144, so that there are stakers at 288
+	base := Acts{Pegnet: 120, GradingV2: 121, TxConv: 122, PegPricing: 123, OneWayFCT: 124, ConvLimit: 126, PegFloat: 126, V4: 129, RCDE: 129, V20: 132}
+	variants := []func(a *Acts){
+		func(a *Acts) { // 2.0.2 on the cadence
+			a.DevRewards, a.SprSig, a.V202, a.OneWaySmall, a.V204, a.V204Burn, a.PIP10 = 270, 270, 288, 288, 291, 294, 297
+		},
+		func(a *Acts) { // developer rewards (and the old-burn zeroing) on the cadence
+			a.DevRewards, a.SprSig, a.V202, a.OneWaySmall, a.V204, a.V204Burn, a.PIP10 = 288, 288, 291, 291, 294, 297, 300
+		},
+		func(a *Acts) { // mint on the cadence
+			a.DevRewards, a.SprSig, a.V202, a.OneWaySmall, a.V204, a.V204Burn, a.PIP10 = 270, 270, 280, 280, 288, 294, 297
+		},
+		func(a *Acts) { // burn of the minted supply on the cadence, PIP-10 right after
+			a.DevRewards, a.SprSig, a.V202, a.OneWaySmall, a.V204, a.V204Burn, a.PIP10 = 266, 266, 272, 272, 280, 288, 289
+		},
+	}
+	n := 2
+	if tier == "thorough" {
+		n = len(variants)
+	}
+	for i := 0; i < n; i++ {
+		a := base
+		variants[(int(seed)-1+i)%len(variants)](&a)
+		if i < 2 && tier != "thorough" {
+			a = base
+			variants[i](&a) // the quick tier always runs the two payout alignments
+		}
+		runLedgerChainWith(rep, seed+int64(i)*15485863, int(seed)+i, tier, &a, 304, func(w *World, b *BlockSpec) {
+			if b.Height == 288 {
+				// the aligned block itself is an ordinary well-graded block
+				ver := OPRVersionAt(w.S.Acts, 288)
+				b.OPR = w.G.OPRSet(288, ver, w.LastShortHashes(288), 25, w.G.Rates, nil)
+				b.SPR = nil
+			}
+		})
+	}
+	rep.Rule = "one evaluation = one block of a 184-block chain (first snapshot at 144) whose developer-reward / 2.0.2 / mint / burn activation is a multiple of 144, applied by the real daemon and the model with full dumps compared and the issuance, staking and history monitors evaluated on the implementation's dump; distinct = (era, block shape)"
+}
+
+func init() { scenarios["aligned"] = scenAligned }
+
 func runLedgerChainWith(rep *Report, seed int64, variant int, tier string, acts *Acts, last uint32, decorate func(w *World, b *BlockSpec)) {
 	g := NewGen(seed, 5, 2)
 	s := Setup{Acts: ledgerActs(g.R, variant), AvgPeriod: 8, SyncVersion: mainnetSyncVersion}
@@ -520,14 +577,24 @@ func runLedgerChainWith(rep *Report, seed int64, variant int, tier string, acts 
 		if !res.ImplOK {
 			rep.Sample(map[string]interface{}{"height": h, "era": eraOf(s.Acts, h), "result": res.ImplClass, "msg": res.ImplMsg})
 			mon.violate("liveness:"+res.ImplClass+":"+eraOf(s.Acts, h)+":"+msgSlug(res.ImplMsg), "block cannot be applied: "+res.ImplMsg, h)
+			if h == s.Acts.DevRewards && h%pegnet.SnapshotRate == 0 && strings.Contains(res.ImplMsg, "pn_history_txbatch") {
+				// C15, aligned configuration: the zeroing rows and the staking payout share a mock txid
+				mon.violate("issuance:zeroing-txid-collides-with-staking", "developer-reward activation on a snapshot height: "+res.ImplMsg, h)
+			}
 			if err := run.RecoverFrom(res); err != nil {
 				rep.Note("infrastructure: %v", err)
 				return
 			}
 			run.Chain = run.Chain[:len(run.Chain)-1]
 			res = run.Step(&BlockSpec{Height: h, Time: BlockTime(h)})
-			if res.Diff != "" || !res.ImplOK {
+			if res.Diff != "" {
 				rep.Disagree("lockstep:recover", fmt.Sprintf("h=%d %s %s", h, res.Diff, res.ImplMsg), "")
+				return
+			}
+			if !res.ImplOK {
+				// even an empty block cannot be applied at this height (model and implementation
+				// agree): the chain is wedged for good, which the liveness violation above reports
+				rep.Count("chain-wedged-for-good")
 				return
 			}
 		}
@@ -612,7 +679,9 @@ func pagingCheck(rep *Report, run *Run, g *Gen, s Setup, seed int64) {
 
 // msgSlug keeps the distinguishing tail of an error message for a signature.
 func msgSlug(msg string) string {
-	if i := strings.LastIndex(msg, ": "); i >= 0 {
+	if i := strings.Index(msg, "failed to sync height: "); i >= 0 {
+		msg = msg[i+len("failed to sync height: "):]
+	} else if i := strings.LastIndex(msg, ": "); i >= 0 {
 		msg = msg[i+2:]
 	}
 	out := []byte{}
